@@ -95,3 +95,82 @@ def unmute_stdio():
 
 def say(*a):
     print(*a, file=REAL_STDOUT, flush=True)
+
+
+# ------------------------------------------------------------------------------ module-level state
+# jade has no mutable module-level state of its own (DESIGN 1.2), but a change to jade may introduce
+# some (a functools cache, a module-level dict).  In one interpreter that state would leak from one
+# execution into the next and make replays diverge, so it is reset before every execution.
+import copy as _copy  # noqa: E402
+
+_MODULE_STATE = {}
+
+
+def snapshot_module_state():
+    for name, mod in list(sys.modules.items()):
+        if not (name == "jade" or name.startswith("jade.")) or mod is None:
+            continue
+        for k, v in list(vars(mod).items()):
+            if k.startswith("__"):
+                continue
+            if isinstance(v, (dict, list, set)) and type(v) in (dict, list, set):
+                try:
+                    _MODULE_STATE[(name, k)] = (v, _copy.deepcopy(v))
+                except Exception:  # noqa
+                    pass
+
+
+_CACHE_CLEARS = []
+_NMODS = [0]
+
+
+def _find_cache_clears():
+    del _CACHE_CLEARS[:]
+    for name, mod in list(sys.modules.items()):
+        if not (name == "jade" or name.startswith("jade.")) or mod is None:
+            continue
+        for k, v in list(vars(mod).items()):
+            cc = getattr(v, "cache_clear", None)
+            if cc is not None and callable(cc):
+                _CACHE_CLEARS.append(cc)
+            elif isinstance(v, type) and v.__module__ == name:
+                for ak, av in list(vars(v).items()):
+                    f = getattr(av, "__func__", av)
+                    cc = getattr(f, "cache_clear", None)
+                    if cc is not None and callable(cc):
+                        _CACHE_CLEARS.append(cc)
+    _NMODS[0] = len(sys.modules)
+
+
+def reset_module_state():
+    for (name, k), (obj, init) in _MODULE_STATE.items():
+        if obj != init:
+            obj.clear()
+            if isinstance(obj, list):
+                obj.extend(_copy.deepcopy(init))
+            else:
+                obj.update(_copy.deepcopy(init))
+    if _NMODS[0] != len(sys.modules):
+        snapshot_new_modules()
+        _find_cache_clears()
+    for cc in _CACHE_CLEARS:
+        try:
+            cc()
+        except Exception:  # noqa
+            pass
+
+
+def snapshot_new_modules():
+    seen = {n for (n, k) in _MODULE_STATE}
+    for name, mod in list(sys.modules.items()):
+        if not (name == "jade" or name.startswith("jade.")) or mod is None or name in seen:
+            continue
+        for k, v in list(vars(mod).items()):
+            if not k.startswith("__") and type(v) in (dict, list, set):
+                try:
+                    _MODULE_STATE[(name, k)] = (v, _copy.deepcopy(v))
+                except Exception:  # noqa
+                    pass
+
+
+snapshot_module_state()
